@@ -223,6 +223,20 @@ def runExecSteps (F : BodyFn) (cfg : Cfg) (t : TaskSpec) : Sess â†’ List XStep â
     let s' := { s with w := { s.w with fs := r.1 }, log := if behInvokes t.beh then s.log ++ [t.id] else s.log }
     if r.2 then (.error, s') else runExecSteps F cfg t s' xs
 
+/-- The `pytask_execute_task` hook (firstresult) in pluggy's call order: wrappers do not change the result, an
+implementation outside execute.py acts only under its extracted condition (task generators: not in a static project),
+execute.py's implementation returns `True` and ends the chain. Anything else fails closed. -/
+def runExecChain (F : BodyFn) (P : Project) (g : G) (cfg : Cfg) (t : TaskSpec) (s : Sess) : List String â†’ Raised Ã— Sess
+  | [] => (.none, s)
+  | n :: ns =>
+    if executeWrappers.contains n then runExecChain F P g cfg t s ns
+    else if n == "execute" then runExecSteps F cfg t s executeSteps
+    else match executeGuards.find? (fun e => e.1 == n) with
+      | none => (.error, s)
+      | some e => match evalCond P g cfg s t false e.2 with
+        | some false => runExecChain F P g cfg t s ns
+        | _ => (.error, s)
+
 /-- `execute.pytask_execute_task_teardown`. -/
 def runTeardown (P : Project) (g : G) (t : TaskSpec) (s : Sess) : List TCheck â†’ Raised
   | [] => .none
@@ -242,7 +256,7 @@ def runPhaseList (F : BodyFn) (P : Project) (g : G) (cfg : Cfg) (t : TaskSpec) :
       | .none => runPhaseList F P g cfg t s ps
       | r => (r, s)
     else if p == "execute" then
-      match runExecSteps F cfg t s executeSteps with
+      match (if Generated.executeOrderFirstResult then runExecChain F P g cfg t s Generated.executeOrder else (.error, s)) with
       | (.none, s') => runPhaseList F P g cfg t s' ps
       | r => r
     else if p == "teardown" then
